@@ -13,6 +13,10 @@ checks={
    technique="bounded exhaustive enumeration of boundary values and of short / mutated byte strings through every real codec; round-trip and canonical re-encoding oracle",
    text="55 codecs (11 portal messages, 4 ping payloads, history/beacon/state containers and content keys). Values: full product of per-field boundary lengths/counts derived from the ssz-max/ssz-size tags (in and just over each limit) -> encode -> decode -> equal; over-limit values must fail to encode or be rejected. Bytes: all strings up to 2 (thorough 3) bytes per codec, and every truncation, extension, offset-window replacement and single-byte mutant of every canonical encoding (beacon containers: of the repository's genuine vectors); whatever decodes must re-encode to the identical bytes and respect every declared limit.",
    note="Limits above 65536 (transaction/receipt/uncle sizes) are not reached. fastssz/ztyp are executed as they are. Mutants are single-point.", design="5/C14"),
+ "C04": dict(level="model_checking", engine="E2",
+   technique="explicit-state BFS over the real pebble-backed store (replay on a fresh instance per transition) against a reference map, plus exhaustive op sequences after a retained Get",
+   text="BFS over {put (8 colliding ids x 4 sizes, 300 kB on two ids), get, reopen, flush, compact, churn} from three real start states (empty, populated+reopened, after one prune) x 3 node ids, depth 2 (thorough 3), states deduplicated on (reference map, persisted and in-memory counter, radius); after every transition the database is scanned and every pool id read back through the API. Second family: every op sequence of length <= 2 (thorough 3) over 9 operations after a Get whose returned slice is retained (memtable, sstable and post-churn origins): the bytes handed back must never change. Runs in worker processes so that a crash (use-after-free) is reported as a violation.",
+   note="pebble opened with 64 kB memtable/cache by the harness; capacity 1 MB; in-memory file system; ids of other lengths identified with their padded/truncated form.", design="5/C04"),
 }
 na_reason="check not built yet (work in progress; will be claimed once its checker exists)"
 m={"version":1,
@@ -22,6 +26,7 @@ m={"version":1,
           "source_commits":[], "add_only":True},
  "engines":[
   {"name":"E1","path":"harness/mc/dfs.go","serves_properties":[],"kind_free_text":"stateless choice-sequence DFS with deviation bound; product enumeration"},
+  {"name":"E2","path":"harness/mc/bfs.go","serves_properties":[],"kind_free_text":"explicit-state BFS; a state is the event history reaching it, successor = replay on a fresh real instance + 1 event; dedup on a canonical rendering"},
  ],
  "checks":[], "not_applicable":[],
  "notes":"All checks run the implementation itself (no separate model); see DESIGN.md. ./check <id> quick|thorough rebuilds the harness from /repo's working tree with -tags verif and an AST-instrumented overlay."}
